@@ -7,6 +7,7 @@ package main
 import (
 	"bytes"
 	"fmt"
+	"math/rand"
 	"os"
 	"reflect"
 	"strconv"
@@ -396,6 +397,19 @@ func record(which, out string, n int) {
 	}
 	for i := 0; i < n; i++ {
 		sum.Evaluations++
+		if p := hx.Catch(func() { recordOne(which, i, r, w, &sum, seen, randName, enc) }); p != "" {
+			sum.Mis("names/panic:record-"+which, "panic while recording: "+p, map[string]interface{}{"which": which, "i": i})
+		}
+	}
+	sum.Nontrivial = len(seen)
+	sum.Note("events", w.N)
+	sum.Print()
+}
+
+func recordOne(which string, i int, r *rand.Rand, w *hx.Writer, sump *hx.Summary, seen map[string]bool,
+	randName func(int) [][]byte, enc func([][]byte) []byte) {
+	sum := sump
+	{
 		switch which {
 		case "c03":
 			target := []int{3, 10, 60, 200, 250, 253, 254, 255, 256, 257, 260}[r.Intn(11)]
@@ -491,7 +505,7 @@ func record(which, out string, n int) {
 				sa, _, e1 := dns.UnpackDomainName(enc(a), 0)
 				sb, _, e2 := dns.UnpackDomainName(enc(bb), 0)
 				if e1 != nil || e2 != nil {
-					continue
+					return
 				}
 				e := evCompare{Ev: "compare", A: hx.FromString(sa), B: hx.FromString(sb), N: dns.CompareDomainName(sa, sb), Sub: dns.IsSubDomain(sb, sa)}
 				seen[sa+"|"+sb] = true
@@ -504,7 +518,4 @@ func record(which, out string, n int) {
 			hx.Die("record what?")
 		}
 	}
-	sum.Nontrivial = len(seen)
-	sum.Note("events", w.N)
-	sum.Print()
 }
